@@ -31,6 +31,7 @@ type Gen struct {
 	maxDig   int // typical upper bound on digits
 	hugeDig  int // rare upper bound
 	tier     string
+	minExpFloat bool // SetFloat cases use the smallest big.Float exponents
 }
 
 func (g *Gen) intn(n int) int { return g.r.Intn(n) }
